@@ -103,7 +103,7 @@ type MStream struct {
 	sctx    context.Context
 	scancel context.CancelFunc
 
-	c2s, s2c [][]byte
+	c2s, s2c  [][]byte
 	c2sClosed bool // client half-closed
 
 	hdr      metadata.MD
